@@ -514,9 +514,6 @@ func (c *Ctx) checkWideContainer(prefix string, w wideSpec, numbs *types.Var) {
 	}
 
 	// (3)+(4) per single-key method
-	if prefix != "C17" {
-		return
-	}
 	routedType := map[string][]string{} // type of the routed parameter -> methods
 	for i := 0; i < named.NumMethods(); i++ {
 		m := named.Method(i)
@@ -543,7 +540,7 @@ func (c *Ctx) checkWideContainer(prefix string, w wideSpec, numbs *types.Var) {
 		}
 		traces, complete := c.Trace(fn, TraceConfig{Inline: inl})
 		if !complete {
-			c.undecided("C17.index-provenance", cons, fn.Pos(), "path budget exceeded")
+			c.undecided(prefix+".index-provenance", cons, fn.Pos(), "path budget exceeded")
 			continue
 		}
 		okP, okD, n := true, true, 0
@@ -564,7 +561,7 @@ func (c *Ctx) checkWideContainer(prefix string, w wideSpec, numbs *types.Var) {
 			}
 			if shardLoad == nil {
 				okP = false
-				c.violated("C17.index-provenance", cons, fn.Pos(), "the method does not select a shard from the shard slice", c.witness(t, len(t.Events)-1)...)
+				c.violated(prefix+".index-provenance", cons, fn.Pos(), "the method does not select a shard from the shard slice", c.witness(t, len(t.Events)-1)...)
 				continue
 			}
 			idx := shardLoad.Addr.Args[1]
@@ -579,12 +576,12 @@ func (c *Ctx) checkWideContainer(prefix string, w wideSpec, numbs *types.Var) {
 			}
 			if keyArg == nil {
 				okP = false
-				c.violated("C17.index-provenance", cons, shardLoad.Pos, "the shard index is not the result of the container's index function: "+c.short(idx.Key()), c.witness(t, shardIdx)...)
+				c.violated(prefix+".index-provenance", cons, shardLoad.Pos, "the shard index is not the result of the container's index function: "+c.short(idx.Key()), c.witness(t, shardIdx)...)
 				continue
 			}
 			if keyArg.Kind != KParam {
 				okP = false
-				c.violated("C17.index-provenance", cons, shardLoad.Pos, "the index function is not applied to the caller's key: "+c.short(keyArg.Key()), c.witness(t, shardIdx)...)
+				c.violated(prefix+".index-provenance", cons, shardLoad.Pos, "the index function is not applied to the caller's key: "+c.short(keyArg.Key()), c.witness(t, shardIdx)...)
 				continue
 			}
 			routedType[typeStr(keyArg.Typ)] = appendUnique(routedType[typeStr(keyArg.Typ)], m.Name())
@@ -603,7 +600,7 @@ func (c *Ctx) checkWideContainer(prefix string, w wideSpec, numbs *types.Var) {
 				if call != nil {
 					got = call.callName()
 				}
-				c.violated("C17.delegation", cons, fn.Pos(), fmt.Sprintf("%s does not delegate to the shard's %s (calls %s)", m.Name(), m.Name(), got), c.witness(t, len(t.Events)-1)...)
+				c.violated(prefix+".delegation", cons, fn.Pos(), fmt.Sprintf("%s does not delegate to the shard's %s (calls %s)", m.Name(), m.Name(), got), c.witness(t, len(t.Events)-1)...)
 				continue
 			}
 			good := len(call.Args)-1 == len(fn.Params)-1
@@ -624,7 +621,7 @@ func (c *Ctx) checkWideContainer(prefix string, w wideSpec, numbs *types.Var) {
 			}
 			if !good || !passed {
 				okD = false
-				c.violated("C17.delegation", cons, call.Pos, "the shard method is not called with the wide method's own arguments in order (or the routed key is not the one passed on)", c.witness(t, len(t.Events)-1)...)
+				c.violated(prefix+".delegation", cons, call.Pos, "the shard method is not called with the wide method's own arguments in order (or the routed key is not the one passed on)", c.witness(t, len(t.Events)-1)...)
 				continue
 			}
 			// results unchanged
@@ -646,18 +643,18 @@ func (c *Ctx) checkWideContainer(prefix string, w wideSpec, numbs *types.Var) {
 			}
 			if !same {
 				okD = false
-				c.violated("C17.delegation", cons, call.Pos, "the results of the shard method are not returned unchanged", c.witness(t, len(t.Events)-1)...)
+				c.violated(prefix+".delegation", cons, call.Pos, "the results of the shard method are not returned unchanged", c.witness(t, len(t.Events)-1)...)
 			}
 		}
 		if n == 0 {
-			c.undecided("C17.index-provenance", cons, fn.Pos(), "no returning path")
+			c.undecided(prefix+".index-provenance", cons, fn.Pos(), "no returning path")
 			continue
 		}
 		if okP {
-			c.holds("C17.index-provenance", cons, fn.Pos(), "shards[calKeyFn(key)]")
+			c.holds(prefix+".index-provenance", cons, fn.Pos(), "shards[calKeyFn(key)]")
 		}
 		if okD && okP {
-			c.holds("C17.delegation", cons, fn.Pos(), "same-named shard method, own arguments, results returned unchanged")
+			c.holds(prefix+".delegation", cons, fn.Pos(), "same-named shard method, own arguments, results returned unchanged")
 		}
 	}
 	// siblings: all methods of one container route by a parameter of the same type (the key)
@@ -673,7 +670,7 @@ func (c *Ctx) checkWideContainer(prefix string, w wideSpec, numbs *types.Var) {
 				continue
 			}
 			for _, mn := range ms {
-				c.violated("C17.index-provenance", "(*"+tname+")."+mn, named.Obj().Pos(), fmt.Sprintf("%s routes by a parameter of type %s while its siblings route by the key of type %s: acquire and release of one key can hit different shards", mn, t, best), "")
+				c.violated(prefix+".index-provenance", "(*"+tname+")."+mn, named.Obj().Pos(), fmt.Sprintf("%s routes by a parameter of type %s while its siblings route by the key of type %s: acquire and release of one key can hit different shards", mn, t, best), "")
 			}
 		}
 	}
